@@ -6,7 +6,17 @@
   selects, what each capture trait does with which type, `#[emit::optional]`, buffering and the ambient
   context's typed fast path) and about path-invariance, GIVEN the table `Cap.cast / toDisplay / toDebug / serdeJson /
   svalJson / chain / tid` that states value_bag's behaviour. The table itself is sampled by the correspondence,
-  not proved.
+  not proved. Helper lemmas live in Lemmas/Capture.lean.
+
+  OBLIGATIONS (audited by `check` with `#print axioms`):
+    default_hook_unless_well_known, well_known_hooks, attribute_overrides_key,
+    default_typed_roundtrip_int, default_typed_roundtrip, default_displays_display_text,
+    display_inspect_is_default, display_exact, debug_exact, display_debug_exact, debug_inspect_exact,
+    structured_same_tokens_serde, structured_same_tokens_sval_partial, structured_same_tokens_partial,
+    sval_nested_seq_serde_malformed, structured_inspect_primitive,
+    optional_none_absent, optional_some_is_plain, error_chain_kept, error_chain_lost_when_shared,
+    read_path_invariant, read_path_invariant_values, read_path_invariant_sval, downcast_along_paths,
+    capture_idByDisplay
 -/
 import EmitModel.Model.Capture
 import EmitModel.Lemmas.Capture
@@ -313,14 +323,15 @@ theorem read_path_invariant (p : Path) (c : Cap) (o : ObsKind) (hid : IdByDispla
     | exact observe_toShared o c h
     | exact observe_ctxtStore o c hid h
 
-/-- Numbers, booleans, strings (and chars, nulls) and serde-captured or already buffered structured values: EVERY
-    observation survives every path, `downcast_ref` included (it answers `None` throughout). -/
+/-- numbers, booleans, strings (and chars, nulls), serde-captured or already buffered structured values -/
 def isPlainValue : Cap → Bool
   | .signed _ | .unsigned _ | .bigSigned _ | .bigUnsigned _ | .float _ | .bool _ | .char _ _ | .str _ _ | .empty => true
   | .serde _ _ .no => true
   | .sval _ true .no => true
   | _ => false
 
+/-- Numbers, booleans, strings (and chars, nulls) and serde-captured or already buffered structured values: EVERY
+    observation survives every path, `downcast_ref` included (it answers `None` throughout). -/
 theorem read_path_invariant_values (p : Path) (c : Cap) (o : ObsKind) (hc : isPlainValue c = true) :
     observe o (readVia p c) = observe o c := by
   by_cases hd : o = .downcast
